@@ -26,13 +26,13 @@ def _replay(rep, r):
 def run(tier, seed):
     return run_property(
         "C13", tier, seed, level="other",
-        deductive=[("c08_locks", r"C13\.|C08\.release|C08\.lock"), ("c04_graph", r"reroute"), ("c_op", r"^C13\.op|^C08\.op\.failed"), ("c13_inplace", None)],
+        deductive=[("c08_locks", r"C13\.|C08\.release|C08\.lock"), ("c04_graph", r"reroute"), ("c_op", r"^C13\.op|^C08\.op\.failed"), ("c13_inplace", None), ("c04_dupgraph", r"^C13\.restore")],
         replay=_replay,
         bounded=[("state_bounded.py", ["--check", "C13"])],
         trusted=["pyvc heap/dict model of the lock tables", "NumPy refuses flags.writeable=True on a view whose base is read-only (hence a view's flag is restored lazily, when its base is released)"],
         assumptions=[
             "deductive part: lock followed by release restores the lock tables' observable content for an array (C13.lock_release_roundtrip), and reroute_ops_through "
-            "(used by restore_old_graph) is position-wise and reversible; Tensor._op's try/except (contracts/c_op.py) and _in_place_op's except path (contracts/c13_inplace.py: any Exception subclass -> restore_old_graph once, prior (_grad,_view_grad,_base) restored, same exception re-raised, nothing else) are discharged with callees replaced by their contracts; that restore_old_graph really undoes the placeholder graph is bounded",
+            "(used by restore_old_graph) is position-wise and reversible; Tensor._op's try/except (contracts/c_op.py) and _in_place_op's except path (contracts/c13_inplace.py: any Exception subclass -> restore_old_graph once, prior (_grad,_view_grad,_base) restored, same exception re-raised, nothing else) are discharged with callees replaced by their contracts; restore_old_graph itself is under contract (contracts/c04_dupgraph.py: one reroute back per member, members point to the family base again, nothing else) on families of up to 4 members",
             "bounded: 3 base programs x every insertion position x 15 failing statement kinds x {one epoch, across an epoch boundary}; per-statement snapshot of "
             "(data, constant, base, creator, consumers, operand tuples, view children, grad) of every existing tensor; flags compared at the end of the program",
         ],
